@@ -299,7 +299,8 @@ class ReadSetReader:
         if regions is None:
             regions = [(0, None)]
         done_regions: List[Tuple[int, Optional[int]]] = []
-        for s, e in regions:
+        # allele detection walks alignments and variants in lock-step, so regions must be visited from left to right
+        for s, e in sorted(regions, key=lambda region: region[0]):
             for alignment in self._reader.fetch(
                 reference=chromosome, sample=sample, start=s, end=e
             ):
